@@ -1021,6 +1021,14 @@ C08_SCENARIOS = {
     "rotation": ("rotated", FOREIGN, ["g2", "g3", "g4", "g5", "g6"]),
     "rotation-unnamed": ("rotated", "none", ["g2", "g3", "g4", "g5", "g6"]),
     "unreadable-local-key": ("unreadable", None, ["g2", "g3", "g4", "g5", "g6"]),
+    # where the host states the incarnation number of the key: 4th element = (keyIncarnationId of the status document or
+    # None, incarnationId of the key documents and of a pre-stored key file, 0 = none).  The two are independent data.
+    "fresh-inc-key-only": ("fresh", None, ["g1", "g2", "g3", "g4", "g5", "g6"], (None, 1)),
+    "fresh-inc-status-only": ("fresh", None, ["g1", "g2", "g3", "g4", "g5", "g6"], (3, 0)),
+    "fresh-inc-differ": ("fresh", None, ["g1", "g2", "g3", "g4", "g5", "g6"], (2, 1)),
+    "fresh-inc-equal": ("fresh", None, ["g1", "g2", "g3", "g4", "g5", "g6"], (1, 1)),
+    "restart-with-key-inc-key-only": ("haskey", None, ["g2", "g3", "g4", "g5", "g6"], (None, 1)),
+    "restart-with-key-inc-differ": ("haskey", None, ["g2", "g3", "g4", "g5", "g6"], (5, 2)),
 }
 C08_PLANS = {
     "none": {},
@@ -1035,46 +1043,137 @@ C08_PLANS = {
 }
 
 
-# transient storage faults: ONE system call of the store / read-back step of the first process fails (strace
-# inject=<call>:error=<errno>:when=<ordinal of that call in an undisturbed run>), every later call works again.  Nothing
-# on the file system is touched, so nothing is left behind, and it works as root.
+# transient storage faults: the first n calls of one kind on the key directory fail in the first process, every later
+# call works again.  They are injected by path, not by position: a tiny LD_PRELOAD library (compiled on first use into
+# .build) wraps open/openat/write/rename of the C library and fails, with counters shared by all threads of the process,
+#   CREATE  opening <keys>/*.tmp with O_CREAT            (ENOSPC)      WRITE   writing into that file   (ENOSPC)
+#   RENAME  renaming onto <keys>/*.key                   (EIO)         ROPEN   opening <keys>/*.key read-only (EIO)
+# Nothing on the file system is touched, it works as root, it does not depend on which thread does the I/O or on
+# how many other calls were made before, and every hit is written to a log the check reads back.
 C08_FSFAULTS = {
-    # plan name: (what fails, errno, how many consecutive invocations)
-    "store-create-fails": ("tmp-create", "ENOSPC", 1),
-    "store-write-fails": ("tmp-write", "ENOSPC", 1),
-    "store-rename-fails": ("rename", "EIO", 1),
-    "store-rename-fails-twice": ("rename", "EIO", 2),
-    "readback-fails": ("final-open", "EIO", 1),
-    # the stored key cannot be read for several polls in a row (every read of a key file fails three times running: after
-    # start-up the process reads nothing else), then the disk heals
-    "readback-fails-3x": ("final-read", "EIO", 3),
+    "store-create-fails": {"CREATE": 1},
+    "store-write-fails": {"WRITE": 1},
+    "store-rename-fails": {"RENAME": 1},
+    "store-rename-fails-twice": {"RENAME": 2},
+    "store-rename-fails+attest-lost": {"RENAME": 1},
+    "readback-fails": {"ROPEN": 1},
+    # the stored key cannot be read back for three polls in a row (or for every retry within one), then the disk heals
+    "readback-fails-3x": {"ROPEN": 3},
 }
 for _n in C08_FSFAULTS:
     C08_PLANS[_n] = {}
 C08_PLANS["store-rename-fails+attest-lost"] = C08_PLANS["attest-lost"]
-C08_FSFAULTS["store-rename-fails+attest-lost"] = ("rename", "EIO", 1)
+
+SHIM_C = r"""
+#define _GNU_SOURCE
+#include <dlfcn.h>
+#include <errno.h>
+#include <fcntl.h>
+#include <stdarg.h>
+#include <stdatomic.h>
+#include <stdio.h>
+#include <stdlib.h>
+#include <string.h>
+#include <unistd.h>
+#include <sys/types.h>
+
+static const char *dir; static size_t dlen; static const char *logp;
+static atomic_int n_create, n_write, n_rename, n_ropen, tmpfd = -1;
+static int env_int(const char *n) { const char *v = getenv(n); return v ? atoi(v) : 0; }
+__attribute__((constructor)) static void init(void) {
+  dir = getenv("KKSHIM_DIR"); dlen = dir ? strlen(dir) : 0; logp = getenv("KKSHIM_LOG");
+  n_create = env_int("KKSHIM_CREATE"); n_write = env_int("KKSHIM_WRITE");
+  n_rename = env_int("KKSHIM_RENAME"); n_ropen = env_int("KKSHIM_ROPEN");
+}
+static int under(const char *p, const char *suffix) {
+  if (!dir || !p || strncmp(p, dir, dlen) != 0 || p[dlen] != '/') return 0;
+  size_t l = strlen(p), sl = strlen(suffix);
+  return l > sl && strcmp(p + l - sl, suffix) == 0;
+}
+static int take(atomic_int *c) {
+  int v = atomic_load(c);
+  while (v > 0) { if (atomic_compare_exchange_weak(c, &v, v - 1)) return 1; }
+  return 0;
+}
+static void note(const char *what, const char *path) {
+  if (!logp) return;
+  static int (*ropen)(const char *, int, ...);
+  if (!ropen) ropen = dlsym(RTLD_NEXT, "open");
+  static ssize_t (*rwrite)(int, const void *, size_t);
+  if (!rwrite) rwrite = dlsym(RTLD_NEXT, "write");
+  char b[600]; int n = snprintf(b, sizeof b, "%s %s\n", what, path ? path : "");
+  int fd = ropen(logp, O_WRONLY | O_CREAT | O_APPEND | O_CLOEXEC, 0644);
+  if (fd >= 0) { rwrite(fd, b, n); close(fd); }
+}
+static int gate(const char *path, int flags) {      /* -> errno to fail with, or 0 */
+  if (under(path, ".tmp") && (flags & O_CREAT) && take(&n_create)) { note("CREATE", path); return ENOSPC; }
+  if (under(path, ".key") && (flags & O_ACCMODE) == O_RDONLY && take(&n_ropen)) { note("ROPEN", path); return EIO; }
+  return 0;
+}
+#define OPENLIKE(NAME)                                                        \
+  int NAME(const char *path, int flags, ...) {                                \
+    static int (*real)(const char *, int, ...);                               \
+    if (!real) real = dlsym(RTLD_NEXT, #NAME);                                \
+    mode_t mode = 0;                                                          \
+    if (flags & (O_CREAT | O_TMPFILE)) { va_list ap; va_start(ap, flags); mode = va_arg(ap, mode_t); va_end(ap); } \
+    int e = gate(path, flags);                                                \
+    if (e) { errno = e; return -1; }                                          \
+    int fd = real(path, flags, mode);                                         \
+    if (fd >= 0 && under(path, ".tmp") && (flags & O_ACCMODE) != O_RDONLY) tmpfd = fd; \
+    return fd;                                                                \
+  }
+OPENLIKE(open)
+OPENLIKE(open64)
+#define OPENATLIKE(NAME)                                                      \
+  int NAME(int dfd, const char *path, int flags, ...) {                       \
+    static int (*real)(int, const char *, int, ...);                          \
+    if (!real) real = dlsym(RTLD_NEXT, #NAME);                                \
+    mode_t mode = 0;                                                          \
+    if (flags & (O_CREAT | O_TMPFILE)) { va_list ap; va_start(ap, flags); mode = va_arg(ap, mode_t); va_end(ap); } \
+    int e = gate(path, flags);                                                \
+    if (e) { errno = e; return -1; }                                          \
+    int fd = real(dfd, path, flags, mode);                                    \
+    if (fd >= 0 && under(path, ".tmp") && (flags & O_ACCMODE) != O_RDONLY) tmpfd = fd; \
+    return fd;                                                                \
+  }
+OPENATLIKE(openat)
+OPENATLIKE(openat64)
+ssize_t write(int fd, const void *buf, size_t n) {
+  static ssize_t (*real)(int, const void *, size_t);
+  if (!real) real = dlsym(RTLD_NEXT, "write");
+  if (fd >= 0 && fd == atomic_load(&tmpfd) && take(&n_write)) { note("WRITE", "tmp"); errno = ENOSPC; return -1; }
+  return real(fd, buf, n);
+}
+int close(int fd) {
+  static int (*real)(int);
+  if (!real) real = dlsym(RTLD_NEXT, "close");
+  int t = fd; atomic_compare_exchange_strong(&tmpfd, &t, -1);
+  return real(fd);
+}
+int rename(const char *a, const char *b) {
+  static int (*real)(const char *, const char *);
+  if (!real) real = dlsym(RTLD_NEXT, "rename");
+  if (under(b, ".key") && take(&n_rename)) { note("RENAME", b); errno = EIO; return -1; }
+  return real(a, b);
+}
+"""
 
 
-def fault_target(entries, what):
-    """the system call of an undisturbed run that the storage fault will hit"""
-    renamed = False
-    for e in entries:
-        o, n = e["obj"], e["name"]
-        if n.startswith("rename") and e.get("to", "").endswith(".key"):
-            if what == "rename":
-                return e
-            renamed = True
-        if not o.startswith("key:"):
-            continue
-        if what == "tmp-create" and n in ("openat", "creat") and o.endswith(".tmp"):
-            return e
-        if what == "tmp-write" and n in ("write", "writev") and o.endswith(".tmp"):
-            return e
-        if what == "final-open" and renamed and n == "openat" and o.endswith(".key"):
-            return e
-        if what == "final-read" and renamed and n == "read" and o.endswith(".key"):
-            return e
-    return None
+def shim_path():
+    """the fault-injection library, compiled once per content into .build"""
+    h = hashlib.sha256(SHIM_C.encode()).hexdigest()[:12]
+    d = os.path.join(util.BUILD, "kkshim")
+    so = os.path.join(d, "kkshim_%s.so" % h)
+    if not os.path.exists(so):
+        os.makedirs(d, exist_ok=True)
+        src = os.path.join(d, "kkshim_%s_%d.c" % (h, os.getpid()))
+        tmp = so + ".%d" % os.getpid()
+        with open(src, "w") as f:
+            f.write(SHIM_C)
+        util.sh(["gcc", "-shared", "-fPIC", "-O1", "-o", tmp, src, "-ldl"], timeout=120)
+        os.replace(tmp, so)
+        os.unlink(src)
+    return so
 
 
 class Sweeper:
@@ -1084,26 +1183,32 @@ class Sweeper:
         self.rg = Rig(name, bindir, serve=False, interval_ms=5, loggers=True)
         self.all = all_syscalls
         self.n = 0
-        self.faults = {}          # (scenario, plan) -> (syscall, errno, "first..last")
+        self.shim = shim_path()
 
     def close(self, keep=False):
         self.rg.close(keep=keep)
 
     def _prepare(self, scenario, plan):
-        sc, named, queue = C08_SCENARIOS[scenario]
+        sc, named, queue = C08_SCENARIOS[scenario][:3]
+        status_inc, key_inc = (C08_SCENARIOS[scenario] + ((None, 0),))[3]
         init = init_row(adoc("1.0", "wireserver"), sc, named=named)
+        init["inc"] = {a: key_inc for a in AGUIDS}
+        cdoc = concrete_doc(init["doc"])
+        if status_inc is not None:
+            cdoc["keyIncarnationId"] = status_inc
         rg = self.rg
         rg.host.call(op="reset")
         rg.reset_keys(_files_for(init), absent=(init["dir"] == "absent"))
         shutil.rmtree(rg.logs, ignore_errors=True)
         os.makedirs(rg.logs, exist_ok=True)
-        rg.host.call(op="set", hold=False, keydir=rg.keys, doc=concrete_doc(init["doc"]), keys={G(a): K(a) for a in init["issued"]},
+        rg.host.call(op="set", hold=False, keydir=rg.keys, doc=cdoc, keys={G(a): K(a) for a in init["issued"]},
                      named=None if init["named"] == "none" else G(init["named"]),
                      latched=None if init["latched"] == "none" else G(init["latched"]),
-                     issue_queue=[{"guid": G(a), "key": K(a)} for a in queue], plans=C08_PLANS[plan])
+                     issue_queue=[issue_entry(a, init["inc"]) for a in queue], plans=C08_PLANS[plan])
         return init
 
     def _spawn(self, tag, inject=None, fault=None):
+        """fault: counters of the storage-fault library for this process (None: the library is not loaded)"""
         rg = self.rg
         self.n += 1
         log = os.path.join(rg.dir, "st_%s.log" % tag)
@@ -1112,15 +1217,25 @@ class Sweeper:
         except FileNotFoundError:
             pass
         argv = ["strace", "-f", "-s", "200", "-o", log, "-e", "trace=all" if self.all else "trace=file,network,desc"]
-        if fault:
-            argv += ["-e", "inject=%s:error=%s:when=%s" % fault]
         if inject:
             argv += ["-e", "inject=%s:signal=KILL:when=%d" % inject]
         argv.append(rg.exe)
         out = os.path.join(rg.dir, "once_%s.out" % tag)
         open(out, "w").close()
+        extra = {"VERIF_KK_AUTONOTIFY": "1", "VERIF_KK_ONCE_TIMEOUT_MS": "6000"}
+        hits_log = os.path.join(rg.dir, "shim_%s.log" % tag)
+        try:
+            os.unlink(hits_log)
+        except FileNotFoundError:
+            pass
+        if fault:
+            extra.update({"LD_PRELOAD": self.shim, "KKSHIM_DIR": rg.keys, "KKSHIM_LOG": hits_log})
+            extra.update({"KKSHIM_" + k: str(v) for k, v in fault.items()})
         r = rg.host.call(op="run", argv=argv, cwd=rg.dir, timeout=25, _to=40, stdout=out, stderr=os.path.join(rg.dir, "once.err"),
-                         env=rg.agent_env("once", {"VERIF_KK_AUTONOTIFY": "1", "VERIF_KK_ONCE_TIMEOUT_MS": "6000"}))
+                         env=rg.agent_env("once", extra))
+        hits = []
+        if fault and os.path.exists(hits_log):
+            hits = [ln.split(" ", 1) for ln in open(hits_log, errors="replace").read().splitlines() if ln.strip()]
         entries, killed = parse_strace(log, rg.keys)
         res = {}
         for ln in open(out, errors="replace").read().splitlines():
@@ -1129,7 +1244,8 @@ class Sweeper:
                     res = json.loads(ln)
                 except ValueError:
                     pass
-        return {"rc": r.get("rc"), "timeout": r.get("timeout", False), "entries": entries, "killed": killed, "result": res}
+        return {"rc": r.get("rc"), "timeout": r.get("timeout", False), "entries": entries, "killed": killed, "result": res,
+                "fault_hits": [[h[0], os.path.basename(h[1]) if len(h) > 1 else ""] for h in hits]}
 
     def _observe(self, damaged):
         q = self.rg.host.call(op="quiesce", timeout=5)
@@ -1140,63 +1256,22 @@ class Sweeper:
         lat = "none" if hs["latched"] is None else GUID_REV.get(hs["latched"], "?")
         return {"final": final, "tmp": tmp, "latched": lat, "damaged": sorted(damaged), "stray": stray}
 
-    def _fault_spec(self, plan, t):
-        what, errno, times = C08_FSFAULTS[plan]
-        return (t["name"], errno, "%d..%d" % (t["ord"], t["ord"] + times - 1) if times > 1 else str(t["ord"]))
-
-    def _spawn_faulted(self, scenario, plan, tag, inject=None):
-        """prepare + spawn with the plan's storage fault; the ordinal of a call can shift by a wake-up write between two
-        runs, so a run in which the fault fell on a call that is not on the key directory is thrown away and repeated
-        with the ordinal the intended call had in that very run.  -> (init, run) or (init, None) when it never fits"""
-        init = None
-        for _ in range(6):
-            init = self._prepare(scenario, plan)
-            fault = self.faults.get((scenario, plan))
-            r = self._spawn(tag, inject=inject, fault=fault)
-            if not fault:
-                return init, r
-            hit = [e for e in r["entries"] if e["injected"]]
-            if all(e["obj"].startswith("key:") or e.get("to") for e in hit) and (hit or r["killed"]):
-                return init, r
-            t = fault_target(r["entries"], C08_FSFAULTS[plan][0])
-            if t is not None and not t["injected"]:
-                self.faults[(scenario, plan)] = self._fault_spec(plan, t)
-            self.refits = getattr(self, "refits", 0) + 1
-        return init, None
-
     def baseline(self, scenario, plan):
         """an undisturbed run of the scenario (with the plan's storage fault, if it has one) -> its kill points"""
-        fault = None
-        if plan in C08_FSFAULTS:
-            what, errno, times = C08_FSFAULTS[plan]
-            self._prepare(scenario, plan)
-            r0 = self._spawn("base0")
-            t = fault_target(r0["entries"], what) if r0["rc"] == 0 else None
-            if t is None:
-                raise util.ToolError("no %s call found in the undisturbed run of %s/%s (rc=%s)" % (what, scenario, plan, r0["rc"]))
-            self.faults[(scenario, plan)] = self._fault_spec(plan, t)
-        _, r = self._spawn_faulted(scenario, plan, "base")
-        fault = self.faults.get((scenario, plan))
-        if r is None or (fault and not any(e["injected"] for e in r["entries"])):
-            raise util.ToolError("the storage fault of %s/%s could not be placed on the intended call" % (scenario, plan))
+        self._prepare(scenario, plan)
+        r = self._spawn("base", fault=C08_FSFAULTS.get(plan))
         if r["rc"] != 0:
             raise util.ToolError("baseline run of %s/%s failed rc=%s %s: %s" % (scenario, plan, r["rc"], r["result"], self.rg.agent_err()[-400:]))
         inj = sorted({e["name"] for e in r["entries"]}) if self.all else QUICK_SET
-        pts = kill_points(r["entries"], set(inj), all_points=self.all)
-        if fault:      # strace keeps one tampering rule per system call: no kill point on the call that carries the fault
-            pts = [p for p in pts if p[0] != fault[0]]
-        return pts, len(r["entries"])
+        return kill_points(r["entries"], set(inj), all_points=self.all), len(r["entries"])
 
     def case(self, case_id, scenario, plan, point):
         """first process (killed before `point`, or undisturbed when point is None), then a fresh process on the same
         directory and host -> (rows for KeyKeeperTraceFs, summary)"""
         rg = self.rg
-        if plan in C08_FSFAULTS and self.faults.get((scenario, plan)) is None:
-            self.baseline(scenario, plan)
-        init, r1 = self._spawn_faulted(scenario, plan, "first", inject=(point[0], point[1]) if point else None)
-        if r1 is None:
-            return None           # the storage fault could not be placed in this run: no case
-        fault = self.faults.get((scenario, plan))
+        init = self._prepare(scenario, plan)
+        fault = C08_FSFAULTS.get(plan)
+        r1 = self._spawn("first", inject=(point[0], point[1]) if point else None, fault=fault)
         damaged = set(init["damaged"])
         rows = [{"e": "case", "id": case_id, "final0": init["final"], "latched0": init["latched"], "damaged": sorted(damaged)},
                 {"e": "spawn"}]
@@ -1235,8 +1310,7 @@ class Sweeper:
         rows.append({"e": "end"})
         summary = {"case": case_id, "scenario": scenario, "plan": plan, "point": list(point) if point else None,
                    "killed": bool(r1["killed"]), "killed_before": killed_at,
-                   "storage_fault": list(fault) if fault else None,
-                   "storage_fault_hit": [(e["name"], e["obj"]) for e in r1["entries"] if e["injected"]], "latched_at_kill": lat0, "good_local": bool(good0),
+                   "storage_fault": fault, "storage_fault_hit": r1["fault_hits"], "latched_at_kill": lat0, "good_local": bool(good0),
                    "restart_rc": r2["rc"], "restart_result": r2["result"].get("result"), "restart_acquires": rows[-2]["acquires"],
                    "final_after_kill": o1["final"], "tmp_after_kill": o1["tmp"],
                    "host_requests_first": [x["kind"] for x in hl1], "host_requests_restart": [x["kind"] for x in hl2]}
